@@ -38,3 +38,23 @@ Lemma demo_runs :
   /\ run_ref zops 60 demo = Ok (["v=[10, 12]!"], Some (VQ 12%Z))
   /\ Machine.run zops (compile (procs zops) demo) 400 = Ok (["v=[10, 12]!"], Some (VQ 12%Z)).
 Proof. vm_compute. repeat split; reflexivity. Qed.
+
+(* let z = [1] ; if false then len([len(z), len(z), ... 6554 times]) else 7
+   The then-branch is 6554 * 10 + 10 = 65550 bytes: its jump offsets do not fit 16 bits.
+   Regression example for the repaired finding C09-jump-offset-wrap: the compiler rejects
+   the program (CodeTooLarge) instead of silently truncating the offsets; before the
+   repair the implementation panicked on it (the else value 7 was never produced). *)
+Definition wrap_witness : program Z := [
+  SForeign "len";
+  SLet "z" (EList [EScalar 1%Z]);
+  SExpr (ECond (EBool false)
+               (ECall "len" [EList (repeat (ECall "len" [EIdent "z"]) 6554)])
+               (EScalar 7%Z))].
+
+Lemma wrap_witness_rejected :
+  code_too_large (compile (procs zops) wrap_witness) = true
+  /\ compile_ok (compile (procs zops) wrap_witness) = false.
+Proof. vm_compute. split; reflexivity. Qed.
+
+Lemma wrap_witness_reference : run_ref zops 10 wrap_witness = Ok ([], Some (VQ 7%Z)).
+Proof. vm_compute. reflexivity. Qed.
